@@ -1004,7 +1004,15 @@ def list_sort(eng, world, lst, args, kwargs, node):
         return NONE
     if "key" in kwargs or args:
         # sort with a comparator key: the result is some permutation of the input (order decided by the
-        # comparator, which is verified separately to be a total preorder)
+        # comparator, which is verified separately to be a total preorder).  Only the comparator the order
+        # lemmas are about is accepted; any other key function is outside the subset (the order it induces is unknown)
+        import ast as _ast
+        ktxt = None
+        for kw in getattr(node, "keywords", []):
+            if kw.arg == "key":
+                ktxt = _ast.unparse(kw.value)
+        if ktxt != "functools.cmp_to_key(self.entrycmp)":
+            raise OutOfSubset("list.sort with key %s (only functools.cmp_to_key(self.entrycmp), whose order is specified, is modelled)" % ktxt)
         eng.assumptions_used.add("list.sort(key=cmp_to_key(f)) yields a permutation of the list (same length); the order is the one induced by f (C07: f is verified to be a total preorder)")
         n = lst.n if not lst.concrete() else len(lst.items)
         fresh = eng.symlist(zint(n), lst.elemty or "obj:GopherEntry", "sorted")
